@@ -6,7 +6,7 @@ Rust functions modelled (all under /repo/gix-pack/src):
   index::encode::fanout                                   index/encode.rs        → `fanout`
   index::encode::write_to   (tables + 31-bit offset split)index/encode.rs        → `build`, `encodeOffsets`, `encodeBody`
   index::write (`items.sort_by_key(|e| e.data.id)`)       index/write/mod.rs     → `sortById`
-  index::init::File::at_inner, read_fan                   index/init.rs          → `File.at`
+  index::init::File::at_inner, read_fan                   index/init.rs          → `File.at`, `File.validate`
   index::access::{lookup, lookup_prefix}   (free fns)     index/access.rs        → `lookupWith`, `lookupPrefixWith`
   index::File::{oid_at_index, pack_offset_at_index, pack_offset_from_offset_v2,
                 crc32_at_index, iter}                     index/access.rs        → `File.*`, `Idx.*`
@@ -343,6 +343,25 @@ def readFan : Nat → Bytes → Option (List Nat)
     let rest ← readFan k (d.drop 4)
     some (v :: rest)
 
+/-- `fan.windows(2).any(|w| w[0] > w[1])` negated -/
+def fanMonotone : List Nat → Bool
+  | a :: b :: rest => decide (a ≤ b) && fanMonotone (b :: rest)
+  | _ => true
+
+/-- the validation `at_inner` does once the fan-out table is read: monotonic fan-out, and a file
+size that fits `num_objects` (V1: exactly; V2: between no and `num_objects` 64-bit offsets) -/
+def File.validate (data : Bytes) (v2 : Bool) (fan : List Nat) (hashLen : Nat) : Option (Except OpenErr File) :=
+  match fan[255]? with
+  | none => none
+  | some n =>
+    if !fanMonotone fan then some (.error .corrupt)
+    else
+      let minSize := if v2 then 8 + 256 * 4 + n * (hashLen + 4 + 4) + 2 * hashLen
+                     else 256 * 4 + n * (4 + hashLen) + 2 * hashLen
+      let maxSize := if v2 then minSize + n * 8 else minSize
+      if data.length < minSize ∨ data.length > maxSize then some (.error .corrupt)
+      else some (.ok { data := data, v2 := v2, numObjects := n, fan := fan, hashLen := hashLen })
+
 /-- `index::File::at_inner` for a 20-byte hash; outer `none` = panic -/
 def File.at (data : Bytes) : Option (Except OpenErr File) :=
   let hashLen := 20
@@ -356,17 +375,11 @@ def File.at (data : Bytes) : Option (Except OpenErr File) :=
         else
           match readFan 256 (data.drop 8) with
           | none => none
-          | some fan =>
-            match fan[255]? with
-            | none => none
-            | some n => some (.ok { data := data, v2 := true, numObjects := n, fan := fan, hashLen := hashLen })
+          | some fan => File.validate data true fan hashLen
     else
       match readFan 256 data with
       | none => none
-      | some fan =>
-        match fan[255]? with
-        | none => none
-        | some n => some (.ok { data := data, v2 := false, numObjects := n, fan := fan, hashLen := hashLen })
+      | some fan => File.validate data false fan hashLen
 
 def V1_HEADER : Nat := 1024
 def V2_HEADER : Nat := 1032
